@@ -9,6 +9,7 @@ import (
 	"log"
 	"os"
 	"strings"
+	"sync"
 
 	"github.com/sirupsen/logrus"
 )
@@ -40,11 +41,34 @@ func scanLines(f func(fields []string, raw string)) {
 	}
 }
 
+type lockedBuf struct {
+	sync.Mutex
+	b []byte
+}
+
+func (l *lockedBuf) Write(p []byte) (int, error) {
+	l.Lock()
+	l.b = append(l.b, p...)
+	l.Unlock()
+	return len(p), nil
+}
+
+var traceBuf *lockedBuf
+var traceFile string
+
 var subs = map[string]func(args []string){}
 
 func main() {
 	log.SetOutput(ioutil.Discard)
 	logrus.SetOutput(ioutil.Discard)
+	if f := os.Getenv("CRNG_HARNESS_TRACE"); f != "" {
+		// debugging aid: the relay's own trace log into a file
+		traceBuf = &lockedBuf{}
+		traceFile = f
+		logrus.SetOutput(traceBuf)
+		logrus.SetLevel(logrus.TraceLevel)
+		defer func() { ioutil.WriteFile(traceFile, traceBuf.b, 0644) }()
+	}
 	if len(os.Args) < 2 || subs[os.Args[1]] == nil {
 		fmt.Fprintln(os.Stderr, "usage: harness <sub>")
 		os.Exit(2)
